@@ -20,6 +20,8 @@ VARIANTS = {
     'asan':  ('gcc', ['-O1', '-g', '-fno-omit-frame-pointer',
                       '-fsanitize=address,undefined',
                       '-fno-sanitize-recover=all', GUARD], []),
+    'msan':  ('clang', ['-O1', '-g', '-fno-omit-frame-pointer', '-fsanitize=memory',
+                        '-fsanitize-memory-track-origins', GUARD], []),
     'tsan':  ('gcc', ['-O1', '-g', '-fsanitize=thread', GUARD],
               [os.path.join(NATIVE, 'tsan_exit.c')]),
 }
